@@ -80,6 +80,8 @@ class EngineC08(HistEngine):
 
         def reg_ops(fs):
             for f in fs:
+                if ch.chance(1, 5, "badfirst"):
+                    ops.append(dict(gen_call.CallGen.failing_registration(f), op="add_sub", inst=ch.draw(len(insts), "reginst"), expect_fail=True))
                 ops.append(dict(gen_call.CallGen.registration(f), op="add_sub", inst=ch.draw(len(insts), "reginst")))
         # nested callees need their callee first: registering in generation order guarantees it only inside one group;
         # across groups a late callee of an early caller makes the early registration fail -> keep generation order globally
